@@ -6,6 +6,7 @@ package demos
 
 import (
 	"bytes"
+	"runtime"
 	"testing"
 
 	"github.com/RoaringBitmap/roaring/v2"
@@ -371,4 +372,63 @@ func TestD19_AndAnyFullRunScratchBitmap(t *testing.T) {
 	if _, err := x.ToBytes(); err != nil {
 		t.Fatalf("AndAny result cannot be serialized: %v", err)
 	}
+}
+
+// #20 C08/C13: frozenView keeps its container table (interface values, i.e. pointers) in memory that was
+// allocated as []byte, which the garbage collector does not scan. A container cloned by copy-on-write
+// after a mutation is then referenced only from that memory and may be collected while in use.
+func TestD20_FrozenViewTableInvisibleToGC(t *testing.T) {
+	src := roaring.New()
+	for k := uint32(0); k < 64; k++ {
+		for v := uint32(0); v < 3000; v += 3 {
+			src.Add(k<<16 | v)
+		}
+	}
+	buf, err := src.Freeze()
+	if err != nil {
+		t.Fatal(err)
+	}
+	view := roaring.New()
+	if err := view.FrozenView(buf); err != nil {
+		t.Fatal(err)
+	}
+	want := src.Clone()
+	// one mutation per chunk: every container is replaced by a private clone
+	for k := uint32(0); k < 64; k++ {
+		view.Add(k<<16 | 1)
+		want.Add(k<<16 | 1)
+	}
+	// let the collector run and reuse whatever it freed: small pointerful objects of the size of a
+	// container header, and slices of the size of the cloned payloads
+	type hdr struct {
+		p    *uint16
+		a, b int
+	}
+	var sink []*hdr
+	var sink2 [][]uint16
+	for round := 0; round < 30; round++ {
+		runtime.GC()
+		for i := 0; i < 20000; i++ {
+			sink = append(sink, &hdr{a: 7, b: 7})
+		}
+		for i := 0; i < 500; i++ {
+			g := make([]uint16, 1001)
+			for j := range g {
+				g[j] = 0xffff
+			}
+			sink2 = append(sink2, g)
+		}
+		if len(sink) > 100000 {
+			sink, sink2 = sink[:0], sink2[:0]
+		}
+		if !view.Equals(want) {
+			t.Fatalf("frozen view changed after garbage collection (round %d): cardinality %d, want %d", round, view.GetCardinality(), want.GetCardinality())
+		}
+	}
+	runtime.KeepAlive(sink2)
+	runtime.KeepAlive(sink)
+	if !view.Equals(want) {
+		t.Fatalf("frozen view changed after garbage collection: cardinality %d, want %d", view.GetCardinality(), want.GetCardinality())
+	}
+	runtime.KeepAlive(buf)
 }
